@@ -242,11 +242,8 @@ class VolumeSubdivision(Logger):
         super().__init__("VolumeSubdivision", verbose=verbose)
         self.mesh = mesh
         self._input = mesh
-        self.conn = None # connectivity
 
     def __enter__(self):
-        self.conn = self.mesh.connectivity
-        self.conn._compute_cell_adj()
         self.mesh = RawMeshData(self.mesh)
         self.mesh.face_corners.clear()
         self.mesh.cell_corners.clear()
@@ -298,11 +295,12 @@ class VolumeSubdivision(Logger):
         pcenter = sum([Vec(self.mesh.vertices[a]) for a in f ])/3 # barycenter
         self.mesh.vertices.append(pcenter)
         
-        for c in self.conn.face_to_cells(face_id):
-            iF = self.conn.in_cell_face_index(c,face_id)
+        fset = {A,B,C}
+        # adjacency is read from the cells as they are now (they may have been split earlier in this block)
+        for c in [_c for _c in self.mesh.id_cells if len(self.mesh.cells[_c])==4 and fset.issubset(self.mesh.cells[_c])]:
             new_cells = []
             for i in range(4):
-                if i==iF : continue # opposite point in tet from face
+                if self.mesh.cells[c][i] not in fset : continue # opposite point in tet from face
                 cell = [_x for _x in self.mesh.cells[c]]
                 cell[i] = icenter
                 new_cells.append(cell)
